@@ -18,6 +18,7 @@ verus! {
 // shims (R11 / R13): assumed contracts, kept as weak as is true of the real thing
 // =====================================================================================
 #[verifier::external_body]
+#[derive(Debug)]
 pub struct IoError { _p: u8 }
 pub type IoResult<T> = Result<T, IoError>;
 
@@ -283,9 +284,10 @@ impl<R: Write> TempFileBufferWriter<R> {
         r is Ok ==> !(final(self).buffer_state is NotStarted),
         [[L: all_staged_bytes_migrated_in_order]]
         r is Ok && g.sw ==> (final(self).buffer_state matches BufferState::Real(d) && d.bytes() =~= g.d0 + g.w),
-        [[L: staging_kind]]
+        [[L: staging_kind_follows_inmemory_flag]]
         r is Ok && !g.sw && old(self).buffer_state is NotStarted ==>
             (if old(self).inmemory { final(self).buffer_state is InMemory } else { final(self).buffer_state is Temp }),
+        [[L: no_destination_no_change]]
         r is Ok && !g.sw && !(old(self).buffer_state is NotStarted) ==> final(self).buffer_state == old(self).buffer_state,
 //@end
 
@@ -309,22 +311,31 @@ impl<R: Write> TempFileBufferWriter<R> {
         r matches Ok(n) ==> n <= buf@.len(),
         [[L: written_grows_by_accepted_prefix_invariant_kept]]
         r matches Ok(n) ==> proto(final(self).buffer_state, final(mb).held(), g_written(g, buf@.subrange(0, n as int))),
+        [[L: mailbox_emptied]]
+        r is Ok ==> final(mb).held() is None,
+        [[L: started]]
+        r is Ok ==> !(final(self).buffer_state is NotStarted),
         [[L: after_switch_bytes_go_to_destination]]
-        r matches Ok(n) ==> final(mb).held() is None && !(final(self).buffer_state is NotStarted)
-            && (g.sw ==> final(self).buffer_state is Real),
+        r is Ok && g.sw ==> final(self).buffer_state is Real,
 //@loop 1
             invariant
-                [[L: loop/after_update]]
+                [[L: loop/invariant_after_update]]
                 proto(self.buffer_state, mb.held(), g),
+                [[L: loop/mailbox_emptied_by_update]]
                 mb.held() is None,
+                [[L: loop/started_by_update]]
                 !(self.buffer_state is NotStarted),
+                [[L: loop/migrated_by_update]]
                 g.sw ==> self.buffer_state is Real,
+                [[L: loop/frame]]
                 self.closed == old(self).closed, self.real_file == old(self).real_file,
                 self.inmemory == old(self).inmemory, mb.id() == old(mb).id(),
                 mb.ops() <= old(mb).ops() + 1,
             decreases
                 [[L: loop/termination]]
                 0int,
+//@at /match self\.buffer_state \{/ before
+            assert(!(self.buffer_state is NotStarted)); [[L: unreachable_notstarted_after_update]]
 //@end
 
 //@extract method bigtools/src/utils/file/tempfilebuffer.rs flush "Write for TempFileBufferWriter<R>$"
@@ -387,6 +398,8 @@ impl<R: Write> TempFileBuffer<R> {
         final(mb).held() == Some(new_file),
         [[L: invariant_kept_now_switched]]
         proto(st, final(mb).held(), g_switched(g, new_file.bytes())),
+//@at /vpanic\(\);/ before
+            assert(false); [[L: panic_can_only_switch_once_unreachable]]
 //@end
 
 //@extract method bigtools/src/utils/file/tempfilebuffer.rs is_real_file_ready "^impl<R: Write \+ Send \+ 'static> TempFileBuffer<R>$"
@@ -400,8 +413,10 @@ impl<R: Write> TempFileBuffer<R> {
     ensures
         [[L: true_iff_producer_has_published]]
         r == (old(cl).val() is Some),
+        [[L: cell_unchanged]]
+        final(cl).val() == old(cl).val(),
         [[L: frame]]
-        final(cl).val() == old(cl).val(), final(cl).id() == old(cl).id(), final(cl).locks() == old(cl).locks() + 1,
+        final(cl).id() == old(cl).id(), final(cl).locks() == old(cl).locks() + 1,
 //@end
 
 //@extract method bigtools/src/utils/file/tempfilebuffer.rs len "^impl<R: Write \+ Send \+ 'static> TempFileBuffer<R>$"
@@ -422,6 +437,8 @@ impl<R: Write> TempFileBuffer<R> {
         r is Ok ==> (final(cl).val() matches Some(st2) && same_contents(old(cl).val().unwrap(), st2)),
         [[L: frame]]
         final(cl).id() == old(cl).id(), final(cl).locks() == old(cl).locks() + 1,
+//@at /let closed = closed\.as_mut\(\);/ before
+        assert(*closed matches Some(st) && !(st is Real)); [[L: panic_should_not_have_switched_unreachable]]
 //@end
 
 //@extract method bigtools/src/utils/file/tempfilebuffer.rs await_real_file "^impl<R: Write \+ Send \+ 'static> TempFileBuffer<R>$"
@@ -443,11 +460,17 @@ impl<R: Write> TempFileBuffer<R> {
     ensures
         [[L: destination_holds_d0_then_all_written_bytes_once_in_order]]
         d.bytes() =~= g.d0 + g.w,
-        [[L: cells_emptied]]
-        final(mb).held() is None, final(cl).val() is None,
+        [[L: mailbox_emptied]]
+        final(mb).held() is None,
+        [[L: closed_cell_emptied]]
+        final(cl).val() is None,
         [[L: frame]]
         final(mb).id() == old(mb).id(), final(cl).id() == old(cl).id(),
+        [[L: one_lock_one_mailbox_access]]
         final(mb).ops() == old(mb).ops() + 1, final(cl).locks() == old(cl).locks() + 1,
+//@at /match \(real_file, closed\) \{/ before
+        assert(!(real_file is Some && closed is Real)); [[L: unreachable_destination_in_two_places]]
+        assert(real_file is Some || closed is Real); [[L: panic_should_have_switched_unreachable]]
 //@end
 
 //@extract method bigtools/src/utils/file/tempfilebuffer.rs expect_closed_write "^impl<R: Write \+ Send \+ 'static> TempFileBuffer<R>$"
@@ -469,11 +492,18 @@ impl<R: Write> TempFileBuffer<R> {
     ensures
         [[L: out_gets_exactly_the_written_bytes_once_in_order]]
         r is Ok ==> final(real_).bytes() =~= old(real_).bytes() + g.w,
-        [[L: cells_emptied]]
-        final(mb).held() is None, final(cl).val() is None,
+        [[L: mailbox_emptied]]
+        final(mb).held() is None,
+        [[L: closed_cell_emptied]]
+        final(cl).val() is None,
         [[L: frame]]
         final(mb).id() == old(mb).id(), final(cl).id() == old(cl).id(),
+        [[L: one_lock_one_mailbox_access]]
         final(mb).ops() == old(mb).ops() + 1, final(cl).locks() == old(cl).locks() + 1,
+//@at /assert\(real_file\.is_none\(\)\);/ before
+        assert(real_file is None); [[L: assert_should_only_be_writing_to_real_file]]
+//@at /match closed_ \{/ before
+        assert(!(closed_ is Real)); [[L: panic_should_only_be_writing_to_real_file_unreachable]]
 //@end
 
 } // impl TempFileBuffer
@@ -522,9 +552,10 @@ fn write_phase<R: Write>(writer: &mut TempFileBufferWriter<R>, writes: &Vec<Vec<
     ensures
         final(writer).closed == old(writer).closed, final(writer).real_file == old(writer).real_file,
         final(writer).inmemory == old(writer).inmemory, final(mb).id() == old(mb).id(),
+        [[L: phase/one_accepted_chunk_per_write]]
+        r matches Ok(a2) ==> a2@.len() == hi && accepted(a2@, writes@),
         [[L: phase/invariant_kept_over_any_number_of_writes]]
-        r matches Ok(a2) ==> a2@.len() == hi && accepted(a2@, writes@)
-            && proto(final(writer).buffer_state, final(mb).held(), G { sw: g.sw, d0: g.d0, w: flat(a2@) }),
+        r matches Ok(a2) ==> proto(final(writer).buffer_state, final(mb).held(), G { sw: g.sw, d0: g.d0, w: flat(a2@) }),
         [[L: phase/each_write_polls_the_mailbox_at_most_once]]
         final(mb).ops() <= old(mb).ops() + (hi - lo),
 {
@@ -568,9 +599,10 @@ fn driver_switch_at_k<R: Write>(buffer: TempFileBuffer<R>, writer: TempFileBuffe
         fresh_pair(buffer, writer, mb, cl),
         k <= writes@.len(),
     ensures
+        [[L: order1/one_accepted_chunk_per_write]]
+        r matches Ok(p) ==> p.1@.len() == writes@.len() && accepted(p.1@, writes@),
         [[L: order1/destination_is_d0_then_every_accepted_byte_once_in_order]]
-        r matches Ok(p) ==> p.1@.len() == writes@.len() && accepted(p.1@, writes@)
-            && p.0.bytes() =~= dest.bytes() + flat(p.1@),
+        r matches Ok(p) ==> p.0.bytes() =~= dest.bytes() + flat(p.1@),
 {
     let mut buffer = buffer;
     let mut writer = writer;
@@ -598,9 +630,10 @@ fn driver_switch_after_drop<R: Write>(buffer: TempFileBuffer<R>, writer: TempFil
     requires
         fresh_pair(buffer, writer, mb, cl),
     ensures
+        [[L: order2/one_accepted_chunk_per_write]]
+        r matches Ok(p) ==> p.1@.len() == writes@.len() && accepted(p.1@, writes@),
         [[L: order2/destination_is_d0_then_every_accepted_byte_once_in_order]]
-        r matches Ok(p) ==> p.1@.len() == writes@.len() && accepted(p.1@, writes@)
-            && p.0.bytes() =~= dest.bytes() + flat(p.1@),
+        r matches Ok(p) ==> p.0.bytes() =~= dest.bytes() + flat(p.1@),
 {
     let mut buffer = buffer;
     let mut writer = writer;
@@ -625,10 +658,12 @@ fn driver_never_switched<R: Write, O: Write>(buffer: TempFileBuffer<R>, writer: 
     requires
         fresh_pair(buffer, writer, mb, cl),
     ensures
-        [[L: order3/out_gets_every_accepted_byte_once_in_order_and_len_is_their_number]]
-        r matches Ok(p) ==> p.1@.len() == writes@.len() && accepted(p.1@, writes@)
-            && final(out).bytes() =~= old(out).bytes() + flat(p.1@)
-            && p.0 as int == flat(p.1@).len(),
+        [[L: order3/one_accepted_chunk_per_write]]
+        r matches Ok(p) ==> p.1@.len() == writes@.len() && accepted(p.1@, writes@),
+        [[L: order3/out_gets_every_accepted_byte_once_in_order]]
+        r matches Ok(p) ==> final(out).bytes() =~= old(out).bytes() + flat(p.1@),
+        [[L: order3/len_is_number_of_accepted_bytes]]
+        r matches Ok(p) ==> p.0 as int == flat(p.1@).len(),
 {
     let mut writer = writer;
     let tracked mut mb = mb;
@@ -691,7 +726,9 @@ fn driver_any_schedule<R: Write, O: Write>(buffer: TempFileBuffer<R>, writer: Te
         r matches Ok(p) ==> accepted_seq(p.1@, wbufs(ops@)),
         [[L: any_schedule/switched_destination_is_d0_then_every_accepted_byte_once_in_order]]
         r matches Ok(p) ==> (has_switch(ops@) || late_switch) ==>
-            (p.0 matches Some(d) && d.bytes() =~= dest.bytes() + flat(p.1@) && final(out).bytes() =~= old(out).bytes()),
+            (p.0 matches Some(d) && d.bytes() =~= dest.bytes() + flat(p.1@)),
+        [[L: any_schedule/switched_out_untouched]]
+        r matches Ok(p) ==> (has_switch(ops@) || late_switch) ==> final(out).bytes() =~= old(out).bytes(),
         [[L: any_schedule/never_switched_out_gets_every_accepted_byte_once_in_order]]
         r matches Ok(p) ==> !(has_switch(ops@) || late_switch) ==>
             (p.0 is None && final(out).bytes() =~= old(out).bytes() + flat(p.1@)),
